@@ -488,6 +488,8 @@ class ApiCheck(object):
             'policies': st['policy'],
             'distinct_histories': len(self.histories), 'distinct_schedule_signatures': len(self.sched_sigs),
             'phase_overlap_pairs': len(self.overlap),
+            'phases_seen': sorted(set(a for a, b in self.overlap) | set(b for a, b in self.overlap)),
+            'same_phase_overlaps': sorted(a for a, b in self.overlap if a == b),
             'probes': self.probes,
             'probes_stuck_at_zero': sorted(k for k, v in self.probes.items() if v == 0),
             'inconclusive_resource': st['inconclusive_resource'], 'step_cap_runs': st['step_cap'],
